@@ -249,6 +249,10 @@ func RunC11(env *sim.Env) {
 	withFaults := t.Choose(2) == 1
 	opts.Probes, opts.ProbeExpr, opts.Dump = withFaults, withFaults, false
 	opts.MaxStmts = t.Range(2, 4)
+	// no long lists or texts here: every Write is a scheduling point, and nested yields over 20-element
+	// lists make one honest Execute cost hundreds of thousands of them (a false step-bound alarm in the
+	// thorough tier, seed 6, was exactly that); C11 is about interleavings, sizes are the other checks' business
+	opts.Big = false
 	gw := gen.GenWorld(t, opts)
 	w := &world{files: gw.Files, stable: gw.Mains, alone: map[string]string{}, parseSrc: map[string]string{}}
 	w.files[globalsTmpl] = `<g0={{isset(g0) ? g0 : "none"}}><g1={{isset(g1) ? g1 : "none"}}><gc={{gc}}>`
@@ -257,6 +261,9 @@ func RunC11(env *sim.Env) {
 	w.files["/v0.jet"] = "[v0#1]"
 	w.files["/v1.jet"] = "[v1#1]{{include \"/v0.jet\"}}"
 	w.datas = []gen.DataSpec{gen.GenData(t, 1), gen.GenData(t, 2)}
+	for i := range w.datas {
+		w.datas[i].Big = 0
+	}
 	nClients := t.Range(2, 4)
 	useLockedCache := t.Choose(3) == 2
 	devMode := t.Choose(6) == 5
